@@ -159,6 +159,9 @@ class Lowerer:
                 return "(.ok %s)" % self.X(e[2][0], env)
             if fn == "Err" and len(e[2]) == 1 and e[2][0] == ("path", "LengthError"):
                 return ".err"
+            if fn == "Err" and len(e[2]) == 1 and e[2][0][0] == "call" and e[2][0][1][0] == "path" \
+                    and e[2][0][1][1].split("::")[-1] == "invalid_length":
+                return ".err"      # serde: `Err(de::Error::invalid_length(..))`; the error's payload is not modelled
             if base == "array_assume_init" and len(e[2]) == 1 and e[2][0][0] == "path" and env.get(e[2][0][1], ("",))[0] == "arrout":
                 return ".arrOut"
             if base == "read" and fn.split("::")[0] in ("ptr", "core", "read") and len(e[2]) == 1:
@@ -282,6 +285,8 @@ class Lowerer:
             rk = env.get("$ret") or (lambda x, e: "(.done %s)" % x)
             if s[1] is None:
                 return rk(".unit", env)
+            if s[1][0] == "call" and s[1][1] == ("path", "Ok") and len(s[1][2]) == 1 and s[1][2][0][0] == "block":
+                return self.tail(s[1], env, rk)
             return self.value(s[1], env, lambda x, env2, knd: rk(x, env2))
         if kind == "item":
             if s[1].startswith("use "):
@@ -465,6 +470,36 @@ class Lowerer:
             return self.cond(e[2], env, lambda env2: self.cond(e[3], env2, kthen, kelse), kelse)
         if e[0] == "un" and e[1] == "!":
             return self.cond(e[2], env, kelse, kthen)
+        # `seq.size_hint() != Some(k)` / `== Some(k)`
+        if e[0] == "bin" and e[1] in ("!=", "==") and self.is_seq_hint(e[2], env) and e[3][0] == "call" and e[3][1] == ("path", "Some") \
+                and len(e[3][2]) == 1:
+            at_end = self.seq_hint_phase(env)
+            c = "(.shintAnd %s (.eq (.shintVal %s) %s))" % (at_end, at_end, self.X(e[3][2][0], env))
+            if e[1] == "!=":
+                c = "(.not %s)" % c
+            nv = self.nvars
+            t = kthen(env)
+            self.nvars = nv
+            el = kelse(env)
+            self.nvars = nv
+            return "(.ite %s\n  %s\n  %s)" % (c, t, el)
+        # `seq.next_element::<Dummy>()?.is_some()`: one more call, nothing is built; `?` returns the error
+        if e[0] == "method" and e[2] in ("is_some", "is_none") and not e[3] and e[1][0] == "try" and e[1][1][0] == "method" \
+                and re.fullmatch(r"next_element(::<\w+>)?", e[1][1][2]) and not e[1][1][3] and e[1][1][1][0] == "path" \
+                and env.get(e[1][1][1][1], ("",))[0] == "seq":
+            if not re.search(r"::<\w+>$", e[1][1][2]):
+                raise Unparsed("surplus probe builds a real element")
+            nv = self.nvars
+            self.nvars += 1
+            c = "(.var %d)" % nv
+            if e[2] == "is_none":
+                c = "(.not %s)" % c
+            nv2 = self.nvars
+            t = kthen(env)
+            self.nvars = nv2
+            el = kelse(env)
+            self.nvars = nv2
+            return "(.probeS\n  (.ite %s\n  %s\n  %s))" % (c, t, el)
         if e[0] == "method" and e[2] in ("is_some", "is_none") and not e[3] and e[1][0] == "method" and e[1][2] == "next" \
                 and e[1][1][0] == "path" and env.get(e[1][1][1], ("",))[0] in ("ext", "mapiter"):
             b = env[e[1][1][1]]
@@ -758,6 +793,13 @@ class Lowerer:
             raise Unparsed("closure call without an element argument")
         return "(.callF %s\n  %s)" % (self.X(arg, env), cont(env))
 
+    def is_seq_hint(self, e, env):
+        return e[0] == "method" and e[2] == "size_hint" and not e[3] and e[1][0] == "path" and env.get(e[1][1], ("",))[0] == "seq"
+
+    def seq_hint_phase(self, env):
+        """`true` once the builder exists (the hint consulted after reading), `false` before"""
+        return "true" if any(isinstance(b, tuple) and b[:2] == ("objref", ".out") for k_, b in env.items() if k_ != "$ret") else "false"
+
     def effect(self, e, env, cont):
         kind = e[0]
         if kind == "block":
@@ -765,6 +807,26 @@ class Lowerer:
         if kind == "match" and e[1][0] == "method" and e[1][2] == "size_hint" and e[1][1][0] == "path" \
                 and env.get(e[1][1][1], ("",))[0] in ("ext", "mapiter"):
             return self.hint_match(e, env, cont, exact=env[e[1][1][1]][0] == "mapiter")
+        if kind == "match" and self.is_seq_hint(e[1], env):
+            # `match seq.size_hint() { Some(n) if g => A, _ => B }` on a serde `SeqAccess`
+            arms = e[2]
+            if len(arms) != 2 or arms[1][0] != "_" or arms[1][1] is not None:
+                raise Unparsed("arms of the match on seq.size_hint()")
+            mm = re.fullmatch(r"Some\((\w+)\)", arms[0][0])
+            if not mm or arms[0][1] is None:
+                raise Unparsed("first arm of the match on seq.size_hint()")
+            at_end = self.seq_hint_phase(env)
+            genv = dict(env)
+            genv[mm.group(1)] = ("hint", "(.shintVal %s)" % at_end)
+            g = self.X(arms[0][1], genv)
+            def blk(b):
+                return b if b[0] == "block" else (("block", [b], None) if b[0] in ("return", "assign", "for") else ("block", [], b))
+            nv = self.nvars
+            t = self.block(blk(arms[0][2]), genv, lambda x, e4: cont(env))
+            self.nvars = nv
+            el = self.block(blk(arms[1][2]), env, lambda x, e4: cont(env))
+            self.nvars = nv
+            return "(.ite (.shintAnd %s %s)\n  %s\n  %s)" % (at_end, g, t, el)
         if kind == "method":
             recv, name, args = e[1], e[2], e[3]
             # `dst.write(src)`
@@ -909,6 +971,8 @@ class Lowerer:
 
     def for_loop(self, s, env, cont):
         pat, it, body = s[1], s[2], s[3]
+        if it[0] == "path" and env.get(it[1], ("",))[0] == "slotsiter" and pat[0] == "pbind":
+            return self.seq_fill(pat, it, body, env, cont)
         if not (it[0] == "method" and it[2] == "zip" and len(it[3]) == 1):
             raise Unparsed("for loop over %s" % it[0])
         if pat[0] != "ptuple" or len(pat[1]) != 2 or any(p[0] != "pbind" for p in pat[1]):
@@ -921,6 +985,35 @@ class Lowerer:
         btext = self.block(body, benv, lambda x, env2: "(.done .unit)")
         self.nvars = nv
         return "(.zipS %s %s\n  %s\n  %s)" % (dst, src, btext, cont(env))
+
+    def seq_fill(self, pat, it, body, env, cont):
+        """`for dst in build_iter { match seq.next_element()? { Some(el) => { … } None => break, } }`"""
+        if env[it[1]][1] != ".out":
+            raise Unparsed("for loop over an object that is not the builder")
+        stmts, tail = body[1], body[2]
+        m = tail if (not stmts and tail is not None) else (stmts[0][1] if len(stmts) == 1 and tail is None and stmts[0][0] == "expr" else None)
+        if m is None or m[0] != "match":
+            raise Unparsed("body of the for loop over the builder's slots")
+        sc = m[1]
+        if not (sc[0] == "try" and sc[1][0] == "method" and sc[1][2] == "next_element" and not sc[1][3]
+                and sc[1][1][0] == "path" and env.get(sc[1][1][1], ("",))[0] == "seq"):
+            raise Unparsed("scrutinee of the match in the fill loop")
+        arms = dict((a[0], (a[1], a[2])) for a in m[2])
+        some = [k_ for k_ in arms if re.fullmatch(r"Some\(\w+\)", k_)]
+        if len(arms) != 2 or len(some) != 1 or "None" not in arms or arms["None"][0] is not None or arms[some[0]][0] is not None:
+            raise Unparsed("arms of the match in the fill loop")
+        nb = arms["None"][1]
+        if nb not in (("break", None), ("block", [("break", None)], None), ("path", "break"), ("block", [], ("path", "break"))):
+            raise Unparsed("`None` arm is not `break`")
+        el = re.fullmatch(r"Some\((\w+)\)", some[0]).group(1)
+        nv = self.nvars
+        benv = self.fresh(env, pat[1], "slot")
+        benv = self.fresh(benv, el, "elem")
+        b = arms[some[0]][1]
+        b = b if b[0] == "block" else ("block", [], b)
+        btext = self.block(b, benv, lambda x, env2: "(.done .unit)")
+        self.nvars = nv
+        return "(.seqFill\n  %s\n  %s)" % (btext, cont(env))
 
     def zip_src(self, e, env):
         return self.X(e, env)
@@ -980,6 +1073,9 @@ def lower_fn(table, key):
             nargs += 1
         else:
             # caller data: a closure `f`, an accumulator `init`, a formatter …
+            if re.fullmatch(r"\w+", p[2]) and p[2] != "F" and "SeqAccess" in rsparse.compact(hdr):
+                env[p[0]] = ("seq",)
+                continue
             mm = re.match(r"^GenericArray<(\w+),", p[2])
             if mm:
                 # a second array operand, by value
@@ -988,6 +1084,15 @@ def lower_fn(table, key):
             else:
                 env[p[0]] = ("closureF",) if p[2] in ("F",) else (("ext",) if "Iterator" in p[2] else ("ignored",))
     text = L.block(body, env, lambda x, env2: "(.done %s)" % x)
+    if recv == "owned" and "GAVisitor" in key[0]:
+        # `self` is the visitor: a struct whose fields are all `PhantomData` has nothing to drop
+        src = open(os.path.join(REPO, "src", key[0].split("/")[0])).read()
+        m = re.search(r"struct\s+GAVisitor\s*<[^>]*>\s*\{([^}]*)\}", src)
+        fields = [f.strip() for f in (m.group(1).split(",") if m else ["?"]) if f.strip()]
+        if not m or any(not re.fullmatch(r"\w+\s*:\s*PhantomData<\w+>", f) for f in fields):
+            raise Unparsed("GAVisitor has fields other than PhantomData")
+        recv = "ref"
+        L.notes.append("self (GAVisitor: PhantomData fields only) carries nothing to drop")
     return recv, nargs, text, L.notes
 
 
@@ -1021,6 +1126,7 @@ TARGETS = [
     ("lib.rs", ("FunctionalSequence<T>forGenericArray<T,N>",), "fold", "gaFold"),
     ("lib.rs", ("FunctionalSequence<T>forGenericArray<T,N>",), "map", "gaMap"),
     ("lib.rs", ("GenericSequence<T>forGenericArray<T,N>",), "inverted_zip", "gaIzip"),
+    ("impl_serde.rs", ("Visitor<'de>forGAVisitor<T,N>",), "visit_seq", "visitSeq"),
     ("impl_alloc.rs", ("GenericSequence<T>forBox<GenericArray<T,N>>",), "generate", "boxedGenerate"),
     ("impl_alloc.rs", ("DropforDeallocOnDrop",), "drop", "deallocGuardDrop"),
 ]
@@ -1030,7 +1136,7 @@ def build_table():
     """(file/impl-header, fn name) -> (header tokens, parsed body) for every fn in the two files"""
     table = {}
     errors = {}
-    for fname in ("iter.rs", "internal.rs", "lib.rs", "impl_alloc.rs"):
+    for fname in ("iter.rs", "internal.rs", "lib.rs", "impl_alloc.rs", "impl_serde.rs"):
         toks = rsparse.tokenize(open(os.path.join(REPO, "src", fname)).read())
         for imp in rsparse.items(toks, "impl"):
             h = imp.header_text()
